@@ -27,6 +27,7 @@ import (
 	"google.golang.org/protobuf/reflect/protoregistry"
 	"google.golang.org/protobuf/types/descriptorpb"
 	"google.golang.org/protobuf/types/dynamicpb"
+	"google.golang.org/protobuf/types/known/anypb"
 	"google.golang.org/protobuf/types/known/durationpb"
 	"google.golang.org/protobuf/types/known/emptypb"
 	"google.golang.org/protobuf/types/known/fieldmaskpb"
@@ -234,6 +235,7 @@ var fxDeps = []protoreflect.FileDescriptor{
 	emptypb.File_google_protobuf_empty_proto,
 	structpb.File_google_protobuf_struct_proto,
 	descriptorpb.File_google_protobuf_descriptor_proto,
+	anypb.File_google_protobuf_any_proto,
 }
 
 // buildFile makes the FileDescriptorProto for the given methods.
